@@ -555,3 +555,238 @@ func sanyMessage(output string) string {
 	}
 	return firstLines(errorSection(output), 3)
 }
+
+// ---- REPL mode ------------------------------------------------------------------------------------------------------
+//
+// EvalREPL evaluates the expressions with TLC's own read-eval-print loop (tlc2.REPL, part of tla2tools.jar): the
+// same evaluator as model checking, but an evaluation error does not end the JVM, so a batch with thousands of
+// failing expressions costs ~50 ms each instead of one JVM start each.  Expressions are fed one at a time and the
+// answer is read up to the next prompt, so every answer is attributed to its expression; a JVM that does not answer
+// within Timeout is killed, the expression gets class "timeout" and a new JVM continues with the next one.
+// The REPL's module EXTENDS Reals, Sequences, Bags, FiniteSets, TLC, Randomization (a superset of Eval's default).
+func (r *Runner) EvalREPL(ctx context.Context, exprs []string) ([]EvalResult, error) {
+	r.defaults()
+	own := false
+	if r.Dir == "" {
+		d, err := ScratchDir("repl-")
+		if err != nil {
+			return nil, err
+		}
+		r.Dir, own = d, true
+	}
+	if err := os.MkdirAll(r.Dir, 0o755); err != nil {
+		return nil, err
+	}
+	defer func() {
+		if own {
+			if !r.Keep {
+				os.RemoveAll(r.Dir)
+			}
+			r.Dir = ""
+		}
+	}()
+	for i, e := range exprs {
+		if strings.ContainsAny(e, "\n\r") {
+			return nil, fmt.Errorf("tlabridge: expression %d spans several lines", i)
+		}
+	}
+	out := make([]EvalResult, len(exprs))
+	var next atomic.Int64
+	var wg sync.WaitGroup
+	var mu sync.Mutex
+	var firstErr error
+	fail := func(err error) {
+		mu.Lock()
+		if firstErr == nil {
+			firstErr = err
+		}
+		mu.Unlock()
+	}
+	failed := func() bool {
+		mu.Lock()
+		defer mu.Unlock()
+		return firstErr != nil
+	}
+	for w := 0; w < r.Parallel && w < len(exprs); w++ {
+		wg.Add(1)
+		go func(w int) {
+			defer wg.Done()
+			var p *replProc
+			defer func() {
+				if p != nil {
+					p.close()
+				}
+			}()
+			for {
+				i := int(next.Add(1) - 1)
+				if i >= len(exprs) || failed() || ctx.Err() != nil {
+					return
+				}
+				out[i].Expr = exprs[i]
+				for attempt := 0; ; attempt++ {
+					if p == nil {
+						var err error
+						if p, err = r.startREPL(ctx, w); err != nil {
+							fail(err)
+							return
+						}
+					}
+					ans, err := p.ask(exprs[i], r.Timeout)
+					if err == errREPLTimeout {
+						p.close()
+						p = nil
+						out[i].ErrClass, out[i].ErrMsg = "timeout", fmt.Sprintf("TLC did not answer within %v", r.Timeout)
+						break
+					}
+					if err != nil {
+						// the JVM died (e.g. StackOverflowError in the evaluator kills the REPL thread): once is
+						// attributed to the expression, a JVM that cannot even start is fatal
+						p.close()
+						p = nil
+						if attempt == 0 && ctx.Err() == nil {
+							out[i].ErrClass, out[i].ErrMsg = "other", "TLC REPL terminated: "+err.Error()
+							break
+						}
+						fail(err)
+						return
+					}
+					parseREPLAnswer(&out[i], ans)
+					break
+				}
+			}
+		}(w)
+	}
+	wg.Wait()
+	if firstErr == nil && ctx.Err() != nil {
+		firstErr = ctx.Err()
+	}
+	return out, firstErr
+}
+
+var errREPLTimeout = fmt.Errorf("tlabridge: REPL timeout")
+
+const replPrompt = "(tla+) "
+
+type replProc struct {
+	cmd   *exec.Cmd
+	stdin interface {
+		Write([]byte) (int, error)
+		Close() error
+	}
+	data chan []byte
+	buf  []byte
+	dir  string
+	keep bool
+}
+
+func (r *Runner) startREPL(ctx context.Context, w int) (*replProc, error) {
+	r.JVMRuns.Add(1)
+	dir, err := os.MkdirTemp(r.Dir, fmt.Sprintf("repl%d-", w))
+	if err != nil {
+		return nil, err
+	}
+	cmd := exec.CommandContext(ctx, "java", "-XX:+UseSerialGC", "-XX:TieredStopAtLevel=1", "-Xss64m", "-Xmx1g",
+		"-Djava.io.tmpdir="+dir, "-Dorg.jline.terminal.dumb=true", "-cp", TLAJar, "tlc2.REPL")
+	cmd.Dir = dir
+	stdin, err := cmd.StdinPipe()
+	if err != nil {
+		return nil, err
+	}
+	stdout, err := cmd.StdoutPipe()
+	if err != nil {
+		return nil, err
+	}
+	cmd.Stderr = cmd.Stdout
+	if err := cmd.Start(); err != nil {
+		return nil, fmt.Errorf("tlabridge: cannot start the TLC REPL: %w", err)
+	}
+	p := &replProc{cmd: cmd, stdin: stdin, data: make(chan []byte, 64), dir: dir, keep: r.Keep}
+	go func() {
+		for {
+			b := make([]byte, 1<<16)
+			n, err := stdout.Read(b)
+			if n > 0 {
+				p.data <- b[:n]
+			}
+			if err != nil {
+				close(p.data)
+				return
+			}
+		}
+	}()
+	// wait for the first prompt
+	if _, err := p.readToPrompt(2 * time.Minute); err != nil {
+		p.close()
+		return nil, fmt.Errorf("tlabridge: the TLC REPL did not start: %v", err)
+	}
+	return p, nil
+}
+
+func (p *replProc) readToPrompt(timeout time.Duration) (string, error) {
+	deadline := time.NewTimer(timeout)
+	defer deadline.Stop()
+	for {
+		if bytes.HasSuffix(p.buf, []byte(replPrompt)) && (len(p.buf) == len(replPrompt) || p.buf[len(p.buf)-len(replPrompt)-1] == '\n') {
+			ans := string(p.buf[:len(p.buf)-len(replPrompt)])
+			p.buf = nil
+			return ans, nil
+		}
+		select {
+		case b, ok := <-p.data:
+			if !ok {
+				return "", fmt.Errorf("REPL closed its output; last output: %s", tail(string(p.buf), 400))
+			}
+			p.buf = append(p.buf, b...)
+		case <-deadline.C:
+			return "", errREPLTimeout
+		}
+	}
+}
+
+func (p *replProc) ask(expr string, timeout time.Duration) (string, error) {
+	if _, err := p.stdin.Write([]byte(expr + "\n")); err != nil {
+		return "", err
+	}
+	return p.readToPrompt(timeout)
+}
+
+func (p *replProc) close() {
+	p.stdin.Close()
+	if p.cmd.Process != nil {
+		p.cmd.Process.Kill()
+	}
+	go func() {
+		for range p.data {
+		}
+	}()
+	p.cmd.Wait()
+	if !p.keep {
+		os.RemoveAll(p.dir)
+	}
+}
+
+func parseREPLAnswer(res *EvalResult, ans string) {
+	ans = strings.TrimRight(ans, "\n")
+	if i := strings.Index(ans, "Error evaluating expression:"); i >= 0 {
+		rest := ans[i:]
+		msg := ""
+		if j := strings.IndexByte(rest, '\n'); j >= 0 {
+			msg = rest[j+1:]
+		}
+		msg = strings.TrimPrefix(strings.TrimSpace(msg), "tlc2.tool.EvalException: ")
+		if sany := strings.TrimSpace(ans[:i]); msg == "" && sany != "" {
+			msg = sany
+		}
+		res.ErrMsg = firstLines(msg, 3)
+		res.ErrClass = ClassifyError(msg)
+		if msg == "" || strings.Contains(ans, "***Parse Error***") || strings.Contains(ans, "Semantic errors") || strings.Contains(ans, "Could not parse module") ||
+			strings.Contains(ans, "Unknown operator") {
+			res.ErrClass = "parse"
+			if res.ErrMsg == "" {
+				res.ErrMsg = "the REPL could not parse or analyse the expression"
+			}
+		}
+		return
+	}
+	res.OK, res.Value = true, strings.TrimSpace(strings.ReplaceAll(ans, "\n", " "))
+}
